@@ -183,7 +183,11 @@ func init() {
 					if shape != "count3" && att == 1 {
 						s.PodActions = []string{"run", "succeed", "fail", "oom", "vanish", "quick"}
 					}
-					if thorough {
+					if shape == "count3" && att == 2 {
+						// the largest shape: outcomes only (every outcome history of 3 indexes x 3
+						// attempts is also enumerated by the aggregation unit)
+						s.PodActions, s.MaxVanish = []string{"quick"}, 0
+					} else if thorough {
 						s.Budget = mc.Budget{Lag: 1}
 					}
 					add(s)
@@ -218,7 +222,7 @@ func init() {
 			s = jobBase("count2-All-att2-pendingtimeout")
 			s.Parallelism, s.Strategy, s.MaxAttempts, s.MaxFail = "count2", "AllSuccessful", 2, 1
 			s.PendingTimeoutJob = i64(30)
-			s.PodActions = []string{"run", "succeed", "fail", "sched"}
+			s.PodActions = []string{"quick", "sched"}
 			add(s)
 		}
 		s = jobBase("count2-Any-att1-kubeletlate")
